@@ -6,6 +6,7 @@ import (
 	"encoding/json"
 	"fmt"
 	"math/rand"
+	"net"
 	"os"
 	"runtime"
 	"strings"
@@ -603,9 +604,9 @@ func modeC04(thorough bool) {
 	defer own.T.Close()
 	in, err := newInst("c04", instOpts{
 		listeners: allListeners,
-		upstreams: map[string]string{"u1": "udp", "u2": "tcp", "u3": "tcp+pipeline", "u4": "http"},
-		sets:      map[string][]string{"s1": {"domain:z1.test"}, "s2": {"domain:z2.test"}, "s4": {"domain:z4.test"}},
-		rules:     []ruleSpec{{Set: "s1", Forward: "u1"}, {Set: "s2", Forward: "u2"}, {Set: "s4", Forward: "u4"}, {Forward: "u3"}},
+		upstreams: map[string]string{"u1": "udp", "u2": "tcp", "u3": "tcp+pipeline", "u4": "http", "u5": "udp", "u6": "tcp+pipeline"},
+		sets:      map[string][]string{"s1": {"domain:z1.test"}, "s2": {"domain:z2.test"}, "s4": {"domain:z4.test"}, "s5": {"domain:z5.test"}, "s6": {"domain:z6.test"}},
+		rules:     []ruleSpec{{Set: "s1", Forward: "u1"}, {Set: "s2", Forward: "u2"}, {Set: "s4", Forward: "u4"}, {Set: "s5", Forward: "u5"}, {Set: "s6", Forward: "u6"}, {Forward: "u3"}},
 		cacheMem:  48 << 10, // eviction pressure
 	})
 	if err != nil {
@@ -635,6 +636,20 @@ func modeC04(thorough bool) {
 			in.send("udp", "127.0.0.1", mkq(n), 8*time.Second, nil)
 		}
 	}()
+	// a multiplexed upstream connection that carried one query which timed out and is then idle: the reply that
+	// arrives after the time-out (6.3 s) must not satisfy one of the queries that are in flight by then
+	for _, z := range []string{"z5", "z6"} {
+		z := z
+		go func() {
+			in.send("udp", "127.0.0.1", mkq("lone.r0t9d6300."+z+".test."), 8*time.Second, nil)
+		}()
+		go func() {
+			time.Sleep(6080 * time.Millisecond)
+			par(8, func(i int) {
+				in.send("tcp", "", mkq(fmt.Sprintf("%s.r0t9d400.%s.test.", uniq(), z)), 3*time.Second, nil)
+			})
+		}()
+	}
 	// entries that enter their refresh window (last quarter of 8 s) while the stress is still running
 	hot8 := make([]string, 16)
 	for i := range hot8 {
@@ -663,6 +678,33 @@ func modeC04(thorough bool) {
 				q.name = strings.ToUpper(q.name[:3]) + q.name[3:]
 			}
 			lst := allListeners[rng.Intn(len(allListeners))]
+			if k%9 == 4 { // a pipelined batch in one segment (several frames per read event on the stream listeners)
+				var qs []qspec
+				for b := 0; b < 2+rng.Intn(5); b++ {
+					bq := mkq(names[rng.Intn(len(names))])
+					bq.id = uint16(rng.Intn(60000) + b)
+					bq.opt = rng.Intn(2) == 0
+					qs = append(qs, bq)
+				}
+				for a := range qs { // distinct IDs within the batch
+					for b := 0; b < a; b++ {
+						if qs[a].id == qs[b].id {
+							qs[a].id += uint16(a) + 1
+						}
+					}
+				}
+				in.sendBatch([]string{"gnet", "gnet", "tcp", "tls"}[rng.Intn(4)], "", qs, 8*time.Second)
+				continue
+			}
+			if k%23 == 7 { // a datagram whose record body is refused by the decoder (A record with RDLENGTH 3)
+				bad := mkq(names[rng.Intn(len(names))]).wire()
+				bad[7] = 1 // ANCOUNT 1
+				bad = append(bad, 0xC0, 0x0C, 0, 1, 0, 1, 0, 0, 0, 9, 0, 3, 1, 2, 3)
+				if c, err := net.Dial("udp", fmt.Sprintf("127.0.0.1:%d", in.ports["udp"])); err == nil {
+					c.Write(bad)
+					c.Close()
+				}
+			}
 			in.send(lst, "", q, 8*time.Second, nil)
 			if thorough || time.Since(t0) < 6500*time.Millisecond {
 				continue
